@@ -1625,3 +1625,7 @@ mod tests {
             .expect("is_dest_id should accept hash produced by compute_dest_id");
     }
 }
+
+#[cfg(any(kani, verif_replay))]
+#[path = "/verif/kani/fabric.rs"]
+pub(crate) mod verif_kani_fabric;
